@@ -9,9 +9,13 @@
 """
 from __future__ import annotations
 
+import contextlib
+import copy as _copy
+import io
 import json
 import logging
 import os
+import pickle
 import random
 import shutil
 import struct
@@ -36,6 +40,10 @@ TRUSTED = [
     "check of DropletTrack.data); tuple assignment to a structured row would broadcast a length-1 list (unreachable "
     "behind that check); int -> f8 is correctly rounded",
     "the dump/canonicalisation code of this module (numpy uint64 views of the stored doubles)",
+    "h5py.File(path, 'w') truncates an existing file (checked per sample: after writing twice / over another "
+    "collection the dump of the file must equal h5_store(enc x) of the last object written)",
+    "file-level attributes written for to_file(info=...) are not part of the model's `file` (no reader looks at them); "
+    "the dump accepts them only if their keys are exactly those of `info`",
 ]
 ASSUME = [
     "doubles are modelled by their bit patterns: equality is bit identity (NaN payloads preserved, +0 <> -0), which "
@@ -46,13 +54,20 @@ ASSUME = [
     "within a time course because EmulsionTimeCourse.append copies with Emulsion.copy())",
     "tracks: integer times within +-2^53 (times_exact: the time column is f8; beyond it C08_track_int_time_refuted "
     "applies); time courses: no NaN radius (C08_etc_nan_radius_refuted)",
-    "times are python/numpy ints or 64-bit floats, not NaN",
+    "times are python/numpy ints or 64-bit floats, not NaN (time codes of other numpy scalar types and 0-d arrays are "
+    "outside the hand model: they go to the property oracle only, histogram key time_style exotic:*)",
     "class names are the five registered droplet classes",
 ]
-RULE = ("objects generated from VERIF_SEED: all five classes, d=1..3, 1..15 amplitudes, unset/NaN/-0/inf fields, "
-        "empty collections and members, int/float/negative/non-uniform/numpy times, mixed classes and mixed layouts; "
-        "each object is written with to_file, the file is dumped and compared with enc inside Coq, read back with "
-        "from_file and compared with dec; distinct = distinct canonical objects, non-trivial = at least one droplet")
+RULE = ("objects generated from VERIF_SEED: all five classes, d=1..3, 0..15 amplitudes (all-zero / only-last patterns), "
+        "unset/NaN/-0/inf/subnormal fields, empty collections and empty members at the first / interior / last position, "
+        "int/float/numpy times (0 at every position, negative, duplicated, non-monotone, +-2^53, uint64 range), times "
+        "given as list/tuple/ndarray/iterator, mixed classes (also the two classes with identical layouts) and mixed "
+        "layouts; built by every constructor path (ctor, append with/without time, copy=False, copy constructor, "
+        "Emulsion.empty+extend, +, dtype=, force_consistency), reaching to_file fresh / copied / deep-copied / pickled / "
+        "sliced / linked; written once, twice, over an existing file, after growing, and again after reading back; "
+        "options info= and progress=; collections of 11 / 101 / 1001 (thorough: 10001, 100001) members; each object is "
+        "written with to_file, the file is dumped and compared with enc inside Coq, read back with from_file and compared "
+        "with dec; distinct = distinct canonical objects, non-trivial = at least one droplet")
 
 F12_TEXT = ("more than 10^6 frames/tracks: 6-digit keys sort lexicographically, time_1000000 is read before "
             "time_999999")
@@ -80,6 +95,27 @@ def arr_bits(a) -> list[int]:
     """exact bit patterns of a float64 scalar / array (no FPU round trip)"""
     a = np.ascontiguousarray(np.atleast_1d(a), dtype="<f8")
     return [int(v) for v in a.view("<u8").ravel()]
+
+
+def float_kind(b: int) -> str:
+    """class of a binary64 bit pattern (for the evidence histogram)"""
+    mag, neg = b & (2 ** 63 - 1), b >> 63
+    if mag == 0:
+        return "-0" if neg else "+0"
+    e, fr = mag >> 52, mag & (2 ** 52 - 1)
+    if e == 0:
+        return "subnormal"
+    if e == 2047:
+        if fr == 0:
+            return "-inf" if neg else "+inf"
+        if fr == 2 ** 51:
+            return "nan (default, negative)" if neg else "nan (default)"
+        return "nan (quiet, payload)" if fr & 2 ** 51 else "nan (signalling)"
+    return "normal" if 1023 - 60 <= e <= 1023 + 60 else ("huge (>2^60)" if e > 1023 else "tiny (<2^-60)")
+
+
+def is_nan_bits(b: int) -> bool:
+    return (b & (2 ** 63 - 1)) > 0x7FF0000000000000
 
 
 QNAN = 0x7FF8000000000000
@@ -115,18 +151,39 @@ def gen_bits(rng: random.Random, role: str) -> int:
 # ---------------------------------------------------------------------------------------------
 # recipes (JSON-able) and how they become objects
 # ---------------------------------------------------------------------------------------------
-def gen_drop(rng: random.Random, cls: str | None = None, dim: int | None = None, na: int | None = None) -> dict:
+NA_CHOICES = [1, 1, 2, 3, 4, 5, 6, 8, 15]
+AMPL_PATTERNS = ["random"] * 6 + ["all_zero", "last_only", "first_only", "neg_zero"]
+
+
+def gen_drop(rng: random.Random, cls: str | None = None, dim: int | None = None, na: int | None = None,
+             on_axis: bool = False) -> dict:
+    """one droplet recipe; `na` = number of amplitudes (None: drawn, 0 with a small probability: the zero-sized
+    amplitude field that h5py refuses), `on_axis`: position acceptable for the axisymmetric class"""
     cls = cls or rng.choice(CLASS_NAMES)
     dim = CLASS_DIM.get(cls) or dim or rng.choice([1, 2, 3])
     pos = [gen_bits(rng, "pos") for _ in range(dim)]
-    if cls == "PerturbedDroplet3DAxisSym":
+    if cls == "PerturbedDroplet3DAxisSym" or (on_axis and dim == 3):
         pos[0], pos[1] = gen_bits(rng, "axis"), gen_bits(rng, "axis")
     r = {"cls": cls, "pos": pos, "radius": gen_bits(rng, "radius")}
     if HAS_WIDTH[cls]:
         r["width"] = None if rng.random() < 0.35 else gen_bits(rng, "width")   # None = argument left unset
     if HAS_AMPL[cls]:
-        na = na or rng.choice([1, 1, 2, 3, 4, 6, 8, 15, rng.randrange(1, 16)])
-        r["ampl"] = [gen_bits(rng, "ampl") for _ in range(na)]
+        if na is None:
+            na = 0 if rng.random() < 0.04 else rng.choice(NA_CHOICES + [rng.randrange(1, 16)])
+        pat = rng.choice(AMPL_PATTERNS)
+        if pat == "random" or na == 0:
+            amp = [gen_bits(rng, "ampl") for _ in range(na)]
+        elif pat == "all_zero":
+            amp = [0] * na
+        elif pat == "neg_zero":
+            amp = [0x8000000000000000] * na
+        elif pat == "last_only":
+            amp = [0] * (na - 1) + [gen_bits(rng, "ampl") or f2b(0.25)]
+        else:
+            amp = [gen_bits(rng, "ampl") or f2b(0.25)] + [0] * (na - 1)
+        r["ampl"] = amp
+        if na == 0 and rng.random() < 0.5:
+            r["ampl_none"] = True           # amplitudes=None instead of an empty list
     return r
 
 
@@ -139,15 +196,19 @@ def build_drop(r: dict):
     if "width" in r:
         kw["interface_width"] = None if r["width"] is None else np.array([r["width"]], dtype="<u8").view("<f8")[0]
     if "ampl" in r:
-        kw["amplitudes"] = np.array(r["ampl"], dtype="<u8").view("<f8")
+        kw["amplitudes"] = None if r.get("ampl_none") else np.array(r["ampl"], dtype="<u8").view("<f8")
     radius = np.array([r["radius"]], dtype="<u8").view("<f8")[0]
     return cls(pos, radius, **kw)
 
 
-def gen_time_list(rng: random.Random, n: int, for_track: bool) -> tuple[list[dict], bool]:
-    """returns (times, in_domain); a time is {"int": z} | {"float": bits} (+ "np": true for numpy scalars)"""
-    style = rng.choice(["range", "range", "half", "nonuniform", "negative", "mixed", "numpy", "dups", "decreasing",
-                        "bigint", "special", "ood"])
+ZERO_TIMES = [{"int": 0}, {"float": 0}, {"float": 0x8000000000000000}, {"int": 0, "np": True}, {"float": 0, "np": True}]
+TIME_STYLES = ["range", "range", "half", "nonuniform", "negative", "mixed", "numpy", "dups", "decreasing",
+               "bigint", "special", "ood", "zero", "zero"]
+
+
+def gen_time_list(rng: random.Random, n: int, for_track: bool) -> tuple[list[dict], bool, str]:
+    """returns (times, in_domain, style); a time is {"int": z} | {"float": bits} (+ "np": true for numpy scalars)"""
+    style = rng.choice(TIME_STYLES)
     in_domain = True
     out: list[dict] = []
     for i in range(n):
@@ -173,6 +234,10 @@ def gen_time_list(rng: random.Random, n: int, for_track: bool) -> tuple[list[dic
         elif style == "special":
             t = {"float": rng.choice([0x8000000000000000, 0x7FF0000000000000, 0xFFF0000000000000, 1,
                                       0x7FEFFFFFFFFFFFFF, 0])}
+        elif style == "zero":
+            # non-zero background with steps != 1 (increasing, decreasing or unordered); zeros are placed below
+            t = rng.choice([{"int": 3 * i + 2}, {"int": -7 - 2 * i}, {"float": f2b(2.5 * i + 1.5)},
+                            {"int": rng.randrange(2, 50)}, {"float": f2b(-0.75 * (i + 1))}])
         else:  # outside the domain of the property: correspondence only
             in_domain = False
             if for_track:
@@ -182,15 +247,35 @@ def gen_time_list(rng: random.Random, n: int, for_track: bool) -> tuple[list[dic
             else:
                 t = rng.choice([{"float": QNAN}, {"float": 0xFFF8000000000001}, {"int": i}])
         out.append(t)
+    if style == "zero" and n:
+        # time code 0 (every spelling) as first / interior / last entry, alone or several times
+        where = rng.choice(["first", "last", "interior", "first+last", "all", "one"])
+        idx = {"first": [0], "last": [n - 1], "interior": list(range(1, n - 1)) or [n - 1],
+               "first+last": [0, n - 1], "all": list(range(n)), "one": [rng.randrange(n)]}[where]
+        for k in idx:
+            out[k] = dict(rng.choice(ZERO_TIMES))
     if not for_track and rng.random() < 0.08:
         # int attributes at the edges of what h5py can store (beyond: TypeError on writing)
         k = rng.randrange(n) if n else 0
         if n:
             out[k] = {"int": rng.choice([2 ** 63 - 1, 2 ** 63, 2 ** 64 - 1, 2 ** 64, -2 ** 63, -2 ** 63 - 1, 2 ** 53 + 1, 10 ** 30])}
-    return out, in_domain
+    return out, in_domain, style
+
+
+# numpy scalar types / 0-d arrays as time codes: the hand model knows python/numpy ints and 64-bit floats only, so
+# recipes with these go to the property oracle alone (`oracle_only`)
+EXOTIC_TIMES = {
+    "float32": lambda v: np.float32(v), "float16": lambda v: np.float16(v), "longdouble": lambda v: np.longdouble(v),
+    "int32": lambda v: np.int32(int(v)), "int16": lambda v: np.int16(int(v)), "int8": lambda v: np.int8(int(v)),
+    "uint8": lambda v: np.uint8(abs(int(v))), "uint32": lambda v: np.uint32(abs(int(v))),
+    "uint64": lambda v: np.uint64(abs(int(v))), "array0d_float": lambda v: np.array(float(v)),
+    "array0d_int": lambda v: np.array(int(v)),
+}
 
 
 def build_time(t: dict):
+    if "exotic" in t:
+        return EXOTIC_TIMES[t["exotic"]](t["value"])
     if "int" in t:
         if t.get("np") and -2 ** 63 <= t["int"] < 2 ** 63:
             return np.int64(t["int"])
@@ -199,16 +284,44 @@ def build_time(t: dict):
     return v if t.get("np") else float(v)
 
 
+def build_times(ts: list[dict], container: str | None):
+    """the `times` argument in the container the recipe asks for (list / tuple / ndarray / iterator)"""
+    vals = [build_time(t) for t in ts]
+    if container == "tuple":
+        return tuple(vals)
+    if container == "iter":
+        return iter(vals)
+    if container == "ndarray" and vals:
+        if all("int" in t and -2 ** 63 <= t["int"] < 2 ** 63 for t in ts):
+            return np.array([int(v) for v in vals], dtype=np.int64)
+        if all("float" in t for t in ts):
+            return np.array([t["float"] for t in ts], dtype="<u8").view("<f8")
+    return vals
+
+
 def gen_members(rng: random.Random, n: int, for_track: bool) -> tuple[list[dict], str]:
-    """n droplet recipes + the flavour: uniform | mixed_class | mixed_layout | bcast"""
+    """n droplet recipes + the flavour: uniform | mixed_class | mixed_class_same_layout | mixed_layout | bcast | mixed_dim"""
     if n == 0:
         return [], "empty"
     u = rng.random()
     cls = rng.choice(CLASS_NAMES)
     d0 = gen_drop(rng, cls)
-    dim, na = len(d0["pos"]), len(d0.get("ampl", [])) or None
-    if u < 0.70 or n == 1:
+    dim, na = len(d0["pos"]), (len(d0["ampl"]) if "ampl" in d0 else None)
+    if u < 0.66 or n == 1:
         return [d0] + [gen_drop(rng, cls, dim, na) for _ in range(n - 1)], "uniform"
+    if u < 0.72:
+        # the two classes whose records have the same layout (F9): only the class check can reject the mixture
+        na = rng.choice(NA_CHOICES)
+        pair = ["PerturbedDroplet3D", "PerturbedDroplet3DAxisSym"]
+        rng.shuffle(pair)
+        ms = [gen_drop(rng, rng.choice(pair), 3, na, on_axis=True) for _ in range(n)]
+        k = rng.randrange(n)                        # the odd one out at a random position (first / interior / last)
+        for j in range(n):
+            ms[j]["cls"] = pair[1] if j == k else pair[0]
+        if rng.random() < 0.5:                     # the same interface-width state everywhere (None/NaN is a value, not a layout)
+            for m in ms:
+                m["width"] = ms[0]["width"]
+        return ms, "mixed_class_same_layout"
     if u < 0.82:
         # a second class; for tracks prefer the same dimension (otherwise append raises already)
         others = [c for c in CLASS_NAMES if c != cls and (not for_track or (CLASS_DIM.get(c) or dim) == dim)]
@@ -224,10 +337,12 @@ def gen_members(rng: random.Random, n: int, for_track: bool) -> tuple[list[dict]
     k = rng.randrange(1, n)
     if HAS_AMPL[cls]:
         v = rng.random()
-        if v < 0.4:
+        if v < 0.35:
             na0, nak = rng.choice([2, 3, 5, 8]), 1          # one amplitude after several (numpy broadcasts)
-        elif v < 0.6:
+        elif v < 0.55:
             na0, nak = 1, rng.choice([2, 3, 7])
+        elif v < 0.65:
+            na0, nak = rng.choice([(0, 1), (0, 3), (1, 0), (4, 0)])   # no amplitudes next to some
         else:
             na0 = rng.randrange(2, 9)
             nak = rng.choice([x for x in range(2, 12) if x != na0])
@@ -242,19 +357,105 @@ def gen_members(rng: random.Random, n: int, for_track: bool) -> tuple[list[dict]
     return ms, "mixed_dim"
 
 
+SIZES = [0, 1, 1, 2, 2, 3, 4, 5]
+PROVENANCE = {   # how the object reaches to_file
+    "emulsion": ["fresh"] * 6 + ["deepcopy", "pickle", "pickle2", "copy", "slice", "copy_method", "copy_ctor", "linked"],
+    "track": ["fresh"] * 6 + ["deepcopy", "pickle", "pickle2", "copy", "slice", "copy_ctor"],
+    "etc": ["fresh"] * 6 + ["deepcopy", "pickle", "pickle2", "copy", "slice", "copy_ctor", "linked"],
+    "tracklist": ["fresh"] * 6 + ["deepcopy", "pickle", "pickle2", "copy", "slice", "copy_ctor"],
+}
+HISTORY = ["once"] * 10 + ["twice_same", "twice_other", "overwrite", "overwrite", "rewrite", "rewrite", "mutate"]
+INFOS = [None, {}, {"a": 1}, {"time_000000": "x", "droplet_class": "None", "track_000000": [1, 2.5, None]},
+         {"nested": {"k": [1, {"z": "w"}]}, "time": 0}]
+
+
+def _empty_positions(rng: random.Random, n: int) -> list[int] | None:
+    """positions of members (frames / tracks) forced to be empty: first / interior / last / all / all but one"""
+    if n < 1 or rng.random() >= 0.3:
+        return None
+    where = rng.choice(["first", "last", "interior", "all", "all_but_one", "first+last"])
+    keep = rng.randrange(n)
+    return {"first": [0], "last": [n - 1], "interior": list(range(1, n - 1)), "all": list(range(n)),
+            "all_but_one": [j for j in range(n) if j != keep], "first+last": [0, n - 1]}[where]
+
+
 def gen_recipe(rng: random.Random, i: int) -> dict:
     kind = ["emulsion", "track", "etc", "tracklist"][i % 4]
-    sizes = [0, 1, 1, 2, 2, 3, 4, 5]
+    rec = _gen_recipe(rng, kind)
+    # ---- provenance of the object, history of the file, options of the calls
+    rec["prov"] = rng.choice(PROVENANCE[kind])
+    rec["hist"] = rng.choice(HISTORY)
+    if rec["hist"] == "overwrite":
+        # what the path holds before: usually a longer collection of the same kind, sometimes another kind
+        k2 = kind if rng.random() < 0.7 else rng.choice(KINDS)
+        before = _gen_recipe(rng, k2, longer=True)
+        rec["before"] = before
+    if rec["hist"] == "mutate":
+        # write, append one more member, write again to the same path: the file must hold the grown object
+        first = next(iter(_all_members(rec)), None)
+        rec["grow"] = {"drop": gen_drop(rng, first["cls"], len(first["pos"]), len(first["ampl"]) if "ampl" in first else None)
+                       if first and rng.random() < 0.8 else gen_drop(rng),
+                       "time": rng.choice([{"int": 0}, {"float": f2b(-2.5)}, {"int": 17}, {"float": 0}, None])}
+    if kind != "emulsion":
+        u = rng.random()
+        if u < 0.25:
+            rec["info"] = _copy.deepcopy(rng.choice(INFOS))     # None = passed explicitly
+    if kind in ("etc", "tracklist"):
+        rec["progress"] = rng.choice(["default", True, False, False])
+    return rec
+
+
+def _all_members(rec: dict) -> list[dict]:
+    if rec["kind"] in ("emulsion", "track"):
+        return rec["members"]
+    if rec["kind"] == "etc":
+        return [m for fr in rec["frames"] for m in fr]
+    return [m for tr in rec["tracks"] for m in tr["members"]]
+
+
+def grow(obj, rec: dict) -> None:
+    """the mutation of history `mutate`: one more droplet / frame / track"""
+    from droplets.emulsions import Emulsion
+    from droplets.droplet_tracks import DropletTrack
+    g = rec["grow"]
+    d = build_drop(g["drop"])
+    t = None if g["time"] is None else build_time(g["time"])
+    if rec["kind"] == "emulsion":
+        obj.append(d)
+    elif rec["kind"] == "track":
+        obj.append(d, t)
+    elif rec["kind"] == "etc":
+        obj.append(Emulsion([d]), t)
+    else:
+        obj.append(DropletTrack([d], None if t is None else [t]))
+
+
+def _gen_recipe(rng: random.Random, kind: str, longer: bool = False) -> dict:
+    sizes = [3, 5, 7, 12] if longer else SIZES + ([rng.choice([6, 9, 10, 11, 12])] if rng.random() < 0.25 else [])
     if kind == "emulsion":
         ms, flav = gen_members(rng, rng.choice(sizes), False)
         rec = {"kind": kind, "members": ms, "flavour": flav, "in_domain": True}
-        if not ms and rng.random() < 0.5:
-            rec["empty_like"] = gen_drop(rng)     # Emulsion.empty(droplet): an empty emulsion that knows its dtype
+        if not ms:
+            rec["build"] = rng.choice(["ctor", "empty_like", "dtype_kw"])
+        else:
+            rec["build"] = rng.choice(["ctor"] * 5 + ["nocopy", "nocopy_shared", "empty_then_extend", "add", "dtype_kw",
+                                                      "force_consistency"])
+        if rec["build"] in ("empty_like", "dtype_kw", "empty_then_extend"):
+            rec["empty_like"] = gen_drop(rng)     # example droplet that fixes the emulsion's dtype (may differ from the members)
+        if rec["build"] == "nocopy_shared" and len(ms) >= 2:
+            j = rng.randrange(1, len(ms))
+            ms[j] = _copy.deepcopy(ms[0])
+            rec["share"] = [0, j]                   # one droplet object at two positions
         return rec
     if kind == "track":
         ms, flav = gen_members(rng, rng.choice(sizes), True)
-        ts, dom = gen_time_list(rng, len(ms), True)
-        return {"kind": kind, "members": ms, "times": ts, "flavour": flav, "in_domain": dom}
+        ts, dom, style = gen_time_list(rng, len(ms), True)
+        rec = {"kind": kind, "members": ms, "times": ts, "flavour": flav, "in_domain": dom, "time_style": style,
+               "build": rng.choice(["ctor"] * 4 + ["append", "append", "append_default", "copy_ctor", "ctor_then_append"]),
+               "times_as": rng.choice(["list", "list", "tuple", "ndarray", "iter"])}
+        if rec["build"] == "append_default":
+            rec["times"], rec["in_domain"], rec["time_style"] = [{"int": j} for j in range(len(ms))], True, "default"
+        return rec
     if kind == "etc":
         n = rng.choice(sizes)
         frames, flavs = [], []
@@ -263,44 +464,132 @@ def gen_recipe(rng: random.Random, i: int) -> dict:
                 gen_members(rng, rng.choice([2, 3]), False)
             frames.append(ms)
             flavs.append(flav)
-        ts, dom = gen_time_list(rng, n, False)
+        for k in _empty_positions(rng, n) or []:
+            frames[k], flavs[k] = [], "empty"
+        ts, dom, style = gen_time_list(rng, n, False)
         flav = "empty" if n == 0 else next((f for f in flavs if f not in ("uniform", "empty")), "uniform")
-        return {"kind": kind, "frames": frames, "times": ts, "flavour": flav, "in_domain": dom,
-                "default_times": n > 0 and rng.random() < 0.1}
-    n = rng.choice([0, 1, 2, 3, 4])
-    tracks, flavs, dom = [], [], True
-    for _ in range(n):
-        ms, flav = gen_members(rng, rng.choice([0, 1, 2, 3]), True)
-        ts, d = gen_time_list(rng, len(ms), True)
+        rec = {"kind": kind, "frames": frames, "times": ts, "flavour": flav, "in_domain": dom, "time_style": style,
+               "build": rng.choice(["ctor"] * 4 + ["default_times", "append", "append", "append_nocopy", "append_default",
+                                                   "copy_ctor"]),
+               "times_as": rng.choice(["list", "list", "tuple", "ndarray", "iter"])}
+        if rec["build"] in ("default_times", "append_default"):
+            rec["times"], rec["in_domain"], rec["time_style"] = [{"int": j} for j in range(n)], True, "default"
+        return rec
+    n = rng.choice([0, 1, 2, 3, 4] if not longer else sizes)
+    if not longer and rng.random() < 0.1:
+        n = rng.choice([6, 10, 11, 12])
+    tracks, flavs, dom, styles = [], [], True, []
+    empty = _empty_positions(rng, n) or []
+    for k in range(n):
+        ms, flav = gen_members(rng, 0 if k in empty else rng.choice([0, 1, 2, 3]), True)
+        ts, d, style = gen_time_list(rng, len(ms), True)
         dom = dom and d
         tracks.append({"members": ms, "times": ts})
         flavs.append(flav)
-    flav = "empty" if n == 0 else next((f for f in flavs if f not in ("uniform", "empty")), "uniform")
-    return {"kind": kind, "tracks": tracks, "flavour": flav, "in_domain": dom}
+        styles.append(style)
+    rec = {"kind": kind, "tracks": tracks, "in_domain": dom,
+           "time_style": next((s for s in styles if s != "range"), "range") if styles else "none",
+           "build": rng.choice(["ctor"] * 4 + ["append", "shared"])}
+    if rec["build"] == "shared" and n >= 2:
+        j = rng.randrange(1, n)
+        tracks[j], flavs[j] = _copy.deepcopy(tracks[0]), flavs[0]
+        rec["share"] = [0, j]                       # one DropletTrack object at two positions of the list
+    rec["flavour"] = "empty" if n == 0 else next((f for f in flavs if f not in ("uniform", "empty")), "uniform")
+    return rec
 
 
 def build(rec: dict):
     from droplets.emulsions import Emulsion, EmulsionTimeCourse
     from droplets.droplet_tracks import DropletTrack, DropletTrackList
     k = rec["kind"]
+    style = rec.get("build", "ctor")
+    cont = rec.get("times_as")
     if k == "emulsion":
-        if not rec["members"] and rec.get("empty_like"):
+        ds = [build_drop(m) for m in rec["members"]]
+        if not ds and rec.get("empty_like") and style in ("ctor", "empty_like"):
             return Emulsion.empty(build_drop(rec["empty_like"]))
-        return Emulsion([build_drop(m) for m in rec["members"]])
+        if style == "dtype_kw":
+            return Emulsion(ds, dtype=build_drop(rec["empty_like"]).data.dtype)
+        if style == "empty_then_extend":
+            obj = Emulsion.empty(build_drop(rec["empty_like"]))
+            obj.extend(ds)
+            return obj
+        if style in ("nocopy", "nocopy_shared"):
+            if rec.get("share"):
+                ds[rec["share"][1]] = ds[rec["share"][0]]
+            return Emulsion(ds, copy=False)
+        if style == "add":
+            h = len(ds) // 2
+            return Emulsion(ds[:h]) + Emulsion(ds[h:])
+        if style == "force_consistency":      # raises ValueError unless all members share one layout
+            return Emulsion(ds, force_consistency=True)
+        return Emulsion(ds)
     if k == "track":
-        return DropletTrack([build_drop(m) for m in rec["members"]], [build_time(t) for t in rec["times"]])
+        ds = [build_drop(m) for m in rec["members"]]
+        if style in ("append", "append_default", "ctor_then_append"):
+            h = len(ds) // 2 if style == "ctor_then_append" else 0
+            obj = DropletTrack(ds[:h], build_times(rec["times"][:h], cont))
+            for d, t in zip(ds[h:], rec["times"][h:]):
+                if style == "append_default":
+                    obj.append(d)
+                else:
+                    obj.append(d, build_time(t))
+            return obj
+        obj = DropletTrack(ds, build_times(rec["times"], cont))
+        return DropletTrack(obj) if style == "copy_ctor" else obj
     if k == "etc":
         ems = [Emulsion([build_drop(m) for m in fr]) for fr in rec["frames"]]
-        if rec.get("default_times"):
+        if rec.get("default_times") or style == "default_times":
             return EmulsionTimeCourse(ems)
-        if rec.get("append_style"):
+        if rec.get("append_style") or style in ("append", "append_nocopy", "append_default"):
             obj = EmulsionTimeCourse()
             for e, t in zip(ems, rec["times"]):
-                obj.append(e, build_time(t), copy=not rec.get("nocopy"))
+                if style == "append_default":
+                    obj.append(e)
+                else:
+                    obj.append(e, build_time(t), copy=not (rec.get("nocopy") or style == "append_nocopy"))
             return obj
-        return EmulsionTimeCourse(ems, [build_time(t) for t in rec["times"]])
-    return DropletTrackList([DropletTrack([build_drop(m) for m in tr["members"]],
-                                          [build_time(t) for t in tr["times"]]) for tr in rec["tracks"]])
+        obj = EmulsionTimeCourse(ems, build_times(rec["times"], cont))
+        return EmulsionTimeCourse(obj) if style == "copy_ctor" else obj
+    trs = [DropletTrack([build_drop(m) for m in tr["members"]], [build_time(t) for t in tr["times"]])
+           for tr in rec["tracks"]]
+    if rec.get("share"):
+        trs[rec["share"][1]] = trs[rec["share"][0]]
+    if style == "append":
+        obj = DropletTrackList()
+        for tr in trs:
+            obj.append(tr)
+        return obj
+    return DropletTrackList(trs)
+
+
+def apply_provenance(obj, prov: str, kind: str):
+    """the object as it reaches to_file: fresh, copied in one of the ways the package / python offers, pickled
+    (what worker processes return), sliced, or with its droplet data linked into one array"""
+    if prov in (None, "fresh"):
+        return obj
+    if prov == "deepcopy":
+        return _copy.deepcopy(obj)
+    if prov == "pickle":
+        return pickle.loads(pickle.dumps(obj))
+    if prov == "pickle2":
+        return pickle.loads(pickle.dumps(obj, protocol=2))
+    if prov == "copy":
+        return _copy.copy(obj)
+    if prov == "slice":
+        return obj[:]
+    if prov == "copy_method":
+        return obj.copy()
+    if prov == "copy_ctor":
+        return type(obj)(obj)
+    if prov == "linked":
+        for e in ([obj] if kind == "emulsion" else obj.emulsions):
+            try:
+                e.get_linked_data()
+            except Exception:  # noqa  (empty without dtype, mixed classes / layouts: nothing to link)
+                pass
+        return obj
+    raise ValueError(prov)
 
 
 # ---------------------------------------------------------------------------------------------
@@ -350,13 +639,14 @@ def dump_obj(obj, kind: str):
     return [dump_obj(tr, "track") for tr in obj]
 
 
-def dump_file(path) -> list:
-    """[(key, attrs, body)] in the order in which h5py lists the keys"""
+def dump_file(path, info=None) -> list:
+    """[(key, attrs, body)] in the order in which h5py lists the keys.  File-level attributes are accepted only if
+    they are the ones asked for with `info` (the model's `file` is the list of datasets; readers ignore them)."""
     import h5py
     out = []
     with h5py.File(path, "r") as fp:
-        if len(fp.attrs):
-            raise Undumpable("file-level attributes")
+        if len(fp.attrs) and sorted(fp.attrs.keys()) != sorted((info or {}).keys()):
+            raise Undumpable(f"file-level attributes {sorted(fp.attrs.keys())[:5]}")
         for key in fp.keys():
             ds = fp[key]
             if not isinstance(ds, h5py.Dataset):
@@ -394,7 +684,15 @@ def dump_file(path) -> list:
 # ---------------------------------------------------------------------------------------------
 # Coq literals
 # ---------------------------------------------------------------------------------------------
+# frequent strings are written once (HEADER defines s_<name> := "<name>"): Coq spends most of its time on a case
+# file parsing string and number literals
+ABBREVIATED = ["position", "radius", "interface_width", "amplitudes", "time", "droplet_class", "None", "emulsion",
+               "droplet_track"] + CLASS_NAMES
+
+
 def cq_str(s: str) -> str:
+    if s in ABBREVIATED:
+        return "s_" + s
     if not s.isascii() or any(ord(c) < 32 for c in s):
         raise Undumpable(f"string {s!r}")
     return '"' + s.replace('"', '""') + '"'
@@ -471,6 +769,7 @@ Local Open Scope string_scope.
 Local Open Scope Z_scope.
 Inductive obj := OEm (l : emulsion) | OTr (l : track) | OEtc (x : etc) | OTl (x : tracklist).
 Definition length {A} := @Datatypes.length A.   (* String.length would shadow it *)
+""" + "".join(f'Definition s_{n} : string := "{n}".\n' for n in ABBREVIATED) + """
 Definition D c p r w a : drop := {| cls := c; dpos := p; radius := r; width := w; ampl := a |}.
 Definition DS a b : dataset := {| ds_attrs := a; ds_body := b |}.
 Definition obj_eqb (a b : obj) : bool :=
@@ -515,16 +814,22 @@ def exc_kind(e: BaseException) -> str:
     return "Other:" + type(e).__name__
 
 
-def reader_of(kind: str):
+def reader_of(kind: str, progress=False):
+    """from_file of the collection type; `progress`: False / True / "default" (argument omitted, i.e. True)"""
     from droplets.emulsions import Emulsion, EmulsionTimeCourse
     from droplets.droplet_tracks import DropletTrack, DropletTrackList
     if kind == "emulsion":
         return Emulsion.from_file
     if kind == "track":
         return DropletTrack.from_file
-    if kind == "etc":
-        return lambda p: EmulsionTimeCourse.from_file(p, progress=False)
-    return lambda p: DropletTrackList.from_file(p, progress=False)
+    cls = EmulsionTimeCourse if kind == "etc" else DropletTrackList
+    if progress is False:
+        return lambda p: cls.from_file(p, progress=False)
+
+    def read_with_bar(p):
+        with contextlib.redirect_stderr(io.StringIO()), contextlib.redirect_stdout(io.StringIO()):
+            return cls.from_file(p) if progress == "default" else cls.from_file(p, progress=True)
+    return read_with_bar
 
 
 def droplets_of(obj, kind: str):
@@ -560,19 +865,33 @@ def property_failures(obj, back, kind: str) -> list[str]:
     if type(back) is not type(obj):
         fails.append(f"type {type(back).__name__} != {type(obj).__name__}")
         return fails
-    ga, gb = droplets_of(obj, kind), droplets_of(back, kind)
+    try:
+        ga, gb = droplets_of(obj, kind), droplets_of(back, kind)
+        ta, tb = times_of(obj, kind), times_of(back, kind)
+    except Exception as e:  # noqa
+        fails.append(f"object read back has no usable members/times ({type(e).__name__}: {str(e)[:80]})")
+        return sorted(set(fails))
     if [len(g) for g in ga] != [len(g) for g in gb]:
-        fails.append(f"member counts differ: {[len(g) for g in ga]} written, {[len(g) for g in gb]} read")
+        la, lb = [len(g) for g in ga], [len(g) for g in gb]
+        if len(la) == len(lb) and len(la) > 12:
+            k = next(j for j in range(len(la)) if la[j] != lb[j])
+            fails.append(f"member counts differ from member {k} on: {la[k:k + 6]}... written, {lb[k:k + 6]}... read "
+                         f"({len(la)} members)")
+        else:
+            fails.append(f"member counts differ: {str(la)[:120]} written, {str(lb)[:120]} read")
     else:
         for a_, b_ in zip(ga, gb):
             for x, y in zip(a_, b_):
                 if type(x).__name__ != type(y).__name__:
                     fails.append(f"droplet class {type(x).__name__} read back as {type(y).__name__}")
-                elif x.data.dtype != y.data.dtype:
-                    fails.append(f"droplet layout {x.data.dtype} read back as {y.data.dtype}")
-                elif arr_bits(x._data_array) != arr_bits(y._data_array):
-                    fails.append("droplet parameters are not bit-identical")
-    ta, tb = times_of(obj, kind), times_of(back, kind)
+                else:
+                    try:
+                        if x.data.dtype != y.data.dtype:
+                            fails.append(f"droplet layout {x.data.dtype} read back as {y.data.dtype}")
+                        elif arr_bits(x._data_array) != arr_bits(y._data_array):
+                            fails.append("droplet parameters are not bit-identical")
+                    except Exception as e:  # noqa
+                        fails.append(f"droplet read back has unusable data ({type(e).__name__}: {str(e)[:80]})")
     if [len(t) for t in ta] != [len(t) for t in tb]:
         fails.append("numbers of times differ")
     else:
@@ -580,6 +899,8 @@ def property_failures(obj, back, kind: str) -> list[str]:
             for x, y in zip(a_, b_):
                 try:
                     same = bool(x == y)
+                    if same and isinstance(y, (complex, np.complexfloating, str, bytes)):
+                        same = False          # a time of the wrong kind
                 except Exception:  # noqa
                     same = False
                 if not same:
@@ -587,48 +908,169 @@ def property_failures(obj, back, kind: str) -> list[str]:
     return sorted(set(fails))
 
 
+def _safe(fn, *args, **kw):
+    """dumps never crash the check: anything unexpected is `Undumpable` (reported with the input)"""
+    try:
+        return fn(*args, **kw)
+    except Undumpable:
+        raise
+    except Exception as e:  # noqa
+        raise Undumpable(f"{type(e).__name__}: {str(e)[:100]}")
+
+
+def _write(obj, path: Path, rec: dict):
+    if "info" in rec and rec["kind"] != "emulsion":
+        obj.to_file(str(path), info=_copy.deepcopy(rec["info"]))
+    else:
+        obj.to_file(str(path))
+
+
+def _round(obj, path: Path, rec: dict, out: dict, tag: str = "") -> tuple:
+    """dump the file at `path`, read it back, judge.  Returns (file dump | None, back | None, back dump | None);
+    oracle failures are appended to out["oracle"] with the tag."""
+    kind = rec["kind"]
+    fdump = bdump = back = None
+    if not rec.get("oracle_only"):
+        try:
+            fdump = _safe(dump_file, path, rec.get("info"))
+        except Undumpable as e:
+            out["undumpable"] = f"file{tag}: {e}"
+    try:
+        back = reader_of(kind, rec.get("progress", False))(str(path))
+    except Exception as e:  # noqa
+        out.setdefault("oracle", []).append(
+            f"file{tag} was written without error but from_file raises {type(e).__name__}: {str(e)[:120]}")
+        return fdump, None, exc_kind(e)
+    if not rec.get("oracle_only"):
+        try:
+            bdump = _safe(dump_obj, back, kind)
+        except Undumpable as e:
+            out["undumpable"] = f"object read back{tag}: {e}"
+    out.setdefault("oracle", []).extend(f + tag for f in property_failures(obj, back, kind))
+    return fdump, back, bdump
+
+
 def run_one(rec: dict, workdir: Path) -> dict:
-    """Build, write, dump, read back.  Returns everything the correspondence and the oracle need."""
+    """Build (with the provenance asked for), write (with the history asked for), dump, read back.  Returns
+    everything the correspondence and the oracle need.  out["extra"]: further (object, file, read back) triples
+    of the same kind for the correspondence (second file of a double write, the re-written read-back object)."""
     out: dict = {"recipe": rec}
     kind = rec["kind"]
+    oracle_only = bool(rec.get("oracle_only"))
     try:
         obj = build(rec)
     except Exception as e:  # noqa
         out["construct_error"] = exc_kind(e) + ": " + str(e)[:160]
         return out
+    prov = rec.get("prov", "fresh")
+    if prov != "fresh":
+        try:
+            before = None if oracle_only else _safe(dump_obj, obj, kind)
+            obj2 = apply_provenance(obj, prov, kind)
+            if type(obj2) is not type(obj):
+                out["prov_note"] = f"{prov} returns {type(obj2).__name__}"
+            else:
+                obj = obj2
+                if not oracle_only and _safe(dump_obj, obj, kind) != before:
+                    out["prov_note"] = f"{prov} changes the object"      # e.g. Emulsion.copy drops NaN radii
+        except Undumpable as e:
+            out["undumpable"] = f"object: {e}"
+            return out
+        except Exception as e:  # noqa
+            out["prov_note"] = f"{prov} raises {type(e).__name__}"
+    path, path2 = workdir / "case.h5", workdir / "case2.h5"
+    for q in (path, path2):
+        if q.exists():
+            q.unlink()
+    hist = rec.get("hist", "once")
+    if hist == "mutate" and rec.get("grow"):
+        try:
+            _write(obj, path, rec)
+            out["first_write"] = "ok"
+        except Exception as e:  # noqa
+            out["first_write"] = exc_kind(e)
+        try:
+            grow(obj, rec)
+        except ValueError as e:     # DropletTrack.append refuses another space dimension
+            out["grow_error"] = str(e)[:80]
+    if not oracle_only:
+        try:
+            out["obj"] = _safe(dump_obj, obj, kind)
+        except Undumpable as e:
+            out["undumpable"] = f"object: {e}"
+            return out
+        if kind == "etc" and any(is_nan_bits(d["radius"]) for _, em in out["obj"] for d in em):
+            # stated premise of the property's theorem (C08_etc_nan_radius_refuted): a NaN radius can only sit in a
+            # time course through append(copy=False) and is dropped on reading -- correspondence only
+            out["domain_note"] = "NaN radius inside a time course"
+    if hist == "overwrite" and rec.get("before"):
+        try:            # the path already holds another collection
+            build(rec["before"]).to_file(str(path))
+            out["before_written"] = True
+        except Exception:  # noqa
+            if path.exists():
+                path.unlink()
     try:
-        out["obj"] = dump_obj(obj, kind)
-    except Undumpable as e:
-        out["undumpable"] = f"object: {e}"
-        return out
-    path = workdir / "case.h5"
-    if path.exists():
-        path.unlink()
-    try:
-        obj.to_file(str(path))
+        _write(obj, path, rec)
+        if hist == "twice_same":
+            _write(obj, path, rec)
+        elif hist == "twice_other":
+            _write(obj, path2, rec)
         out["write"] = "ok"
     except Exception as e:  # noqa
         out["write"] = exc_kind(e)
         out["write_msg"] = str(e)[:160]
+        # informational: what a failed to_file leaves behind (not judged: the call raised)
+        if hist != "once":
+            pass
+        elif not path.exists():
+            out["left_behind"] = "no file"
+        else:
+            try:
+                left = reader_of(kind)(str(path))
+                out["left_behind"] = f"readable file with {len(left)} of {len(obj)} members"
+            except Exception as e2:  # noqa
+                out["left_behind"] = f"file that {type(e2).__name__}s on reading"
         return out
-    try:
-        out["file"] = dump_file(path)
-    except Undumpable as e:
-        out["undumpable"] = f"file: {e}"
-    try:
-        back = reader_of(kind)(str(path))
-    except Exception as e:  # noqa
-        out["read"] = exc_kind(e)
-        out["read_msg"] = str(e)[:160]
-        out["oracle"] = [f"file was written without error but from_file raises {type(e).__name__}: {str(e)[:120]}"]
+    if not oracle_only:
+        try:      # the object handed to to_file must be the object that was written
+            if _safe(dump_obj, obj, kind) != out["obj"]:
+                out.setdefault("oracle", []).append("to_file modified the object it was given")
+        except Undumpable as e:
+            out.setdefault("oracle", []).append(f"to_file left the object in an unusable state ({e})")
+    out.setdefault("oracle", [])
+    fdump, back, bdump = _round(obj, path, rec, out)
+    if fdump is not None:
+        out["file"] = fdump
+    if back is None:
+        out["read"] = bdump
         return out
     out["read"] = "ok"
-    try:
-        out["back"] = dump_obj(back, kind)
-    except Undumpable as e:
-        out["undumpable"] = f"object read back: {e}"
-    out["oracle"] = property_failures(obj, back, kind)
-    if rec.get("cross") and "undumpable" not in out:
+    if bdump is not None:
+        out["back"] = bdump
+    out["extra"] = []
+    if hist == "twice_other":
+        f2, back2, b2 = _round(obj, path2, rec, out, " (second file)")
+        if f2 is not None and not oracle_only and "undumpable" not in out:
+            out["extra"].append((out["obj"], f2, b2 if back2 is not None else None, b2 if back2 is None else "ok"))
+    if hist == "rewrite":
+        # the object read back is itself a collection the property quantifies over: write it, read it again
+        try:
+            _write(back, path2, rec)
+        except Exception as e:  # noqa
+            out["oracle"].append(f"the object read back cannot be written again: {type(e).__name__}: {str(e)[:100]}")
+        else:
+            sub: dict = {}
+            f2, back2, b2 = _round(back, path2, rec, sub, " (after writing the read-back object again)")
+            out["oracle"].extend(sub.get("oracle", []))
+            if "undumpable" in sub:
+                out["undumpable"] = sub["undumpable"]
+            if back2 is not None:
+                out["oracle"].extend(f + " (second generation vs original)" for f in property_failures(obj, back2, kind))
+            if f2 is not None and bdump is not None and not oracle_only and "undumpable" not in out:
+                out["extra"].append((bdump, f2, b2 if back2 is not None else None, b2 if back2 is None else "ok"))
+    out["oracle"] = sorted(set(out["oracle"]))
+    if rec.get("cross") and "undumpable" not in out and not oracle_only:
         out["cross"] = cross_reads(path, [k for k in KINDS if k != kind])
     return out
 
@@ -717,9 +1159,66 @@ Definition agree2 (c : Z * file * result obj) : bool :=
 
 
 def track_with_mixed_dims(rec: dict) -> bool:
+    """the constructions that are documented to raise ValueError: droplets of different space dimensions in one
+    track (DropletTrack.append), members of different layouts with Emulsion(..., force_consistency=True)"""
+    if rec["kind"] == "emulsion" and rec.get("build") == "force_consistency":
+        lay = {(len(m["pos"]), "width" in m, len(m["ampl"]) if "ampl" in m else None) for m in rec["members"]}
+        return len(lay) > 1
     tracks = [rec["members"]] if rec["kind"] == "track" else \
         [t["members"] for t in rec["tracks"]] if rec["kind"] == "tracklist" else []
     return any(len({len(m["pos"]) for m in ms}) > 1 for ms in tracks)
+
+
+def long_recipes(sizes, oracle_only_above: int = 1001) -> list[dict]:
+    """collections whose generated keys cross the digit-width boundaries 10 / 100 / 1000 / ... : time courses of
+    (mostly empty) frames with non-monotone int/float times, and track lists of one-droplet tracks that are all
+    different.  Above `oracle_only_above` members the objects go to the property oracle only."""
+    one = f2b(1.0)
+    out = []
+    for n in sizes:
+        near = lambda i: any(abs(i - b) <= 1 for b in (0, 10, 100, 1000, 10 ** 4, 10 ** 5, n - 1))   # noqa: E731
+        sp = lambda i: {"cls": "SphericalDroplet", "pos": [f2b(float(i)), i + 1], "radius": one}   # noqa: E731
+        df = lambda i: {"cls": "DiffuseDroplet", "pos": [i + 1], "radius": f2b(i / 8), "width": None}   # noqa: E731
+        frames = [([sp(i)] if i % 2 else [df(i), df(i + 1)]) if near(i) else [] for i in range(n)]
+        times = [({"int": n - i} if i % 3 else {"float": f2b(0.5 * i)}) for i in range(n)]       # last one: time 0 or 1
+        base = {"flavour": "uniform", "in_domain": True, "long": n, "hist": "once", "prov": "fresh",
+                "oracle_only": n > oracle_only_above}
+        out.append({"kind": "etc", "frames": frames, "times": times, "build": "ctor", "time_style": "long", **base})
+        tracks = [{"members": [sp(i)] if i % 7 else [df(i), df(i)], "times": [{"int": i}] if i % 7 else
+                   [{"float": f2b(-0.5 * i)}, {"int": 0}]} for i in range(n)]
+        if n <= 101 or n > oracle_only_above:
+            out.append({"kind": "tracklist", "tracks": tracks, "build": "ctor", "time_style": "long", **base})
+        else:
+            # all tracks different: property oracle only; for the model (Coq spends ~15 ms per track on parsing) a
+            # list with the same keys in which only the tracks next to a boundary and every 7th one are non-empty
+            out.append({"kind": "tracklist", "tracks": tracks, "build": "ctor", "time_style": "long",
+                        **{**base, "oracle_only": True}})
+            sparse = [tr if near(i) or i % 7 == 0 else {"members": [], "times": []} for i, tr in enumerate(tracks)]
+            out.append({"kind": "tracklist", "tracks": sparse, "build": "ctor", "time_style": "long", **base})
+    return out
+
+
+def exotic_time_recipes(rng: random.Random) -> list[dict]:
+    """time codes of numpy scalar types the hand model does not know (float16/32, long double, small ints, unsigned,
+    0-d arrays), zero included, at the first / interior / last position: property oracle only"""
+    sp = lambda x: {"cls": "SphericalDroplet", "pos": [f2b(x)], "radius": f2b(1.0)}   # noqa: E731
+    out = []
+    for name in EXOTIC_TIMES:
+        vals = [rng.choice([0, 3, 7, 100]), rng.choice([0, 5, 64]), rng.choice([0, 2, 9])]
+        if "float" in name or name == "longdouble":
+            vals = [v + rng.choice([0, 0.5, 0.25]) for v in vals]
+        if not name.startswith("u") and name != "int8":
+            vals[rng.randrange(3)] *= -1
+        ts = [{"exotic": name, "value": v} for v in vals]
+        base = {"flavour": "uniform", "in_domain": True, "oracle_only": True, "time_style": "exotic:" + name,
+                "hist": rng.choice(["once", "rewrite"]), "prov": rng.choice(["fresh", "pickle"])}
+        out.append({"kind": "etc", "frames": [[sp(1.0)], [], [sp(2.0), sp(3.0)]], "times": ts,
+                    "build": rng.choice(["ctor", "append"]), **base})
+        out.append({"kind": "track", "members": [sp(1.0), sp(2.0), sp(3.0)], "times": ts,
+                    "build": rng.choice(["ctor", "append"]), **base})
+        out.append({"kind": "tracklist", "tracks": [{"members": [sp(1.0), sp(2.0)], "times": ts[:2]},
+                                                    {"members": [sp(3.0)], "times": ts[2:]}], "build": "ctor", **base})
+    return out
 
 
 def long_collection_failures(width: int, kind: str, workdir: Path) -> list[dict]:
@@ -791,6 +1290,28 @@ def corpus() -> list[dict]:
         {"kind": "emulsion", "members": [], "flavour": "empty", "in_domain": True},
         {"kind": "tracklist", "tracks": [{"members": [], "times": []}, {"members": [sp], "times": [{"float": f2b(.25)}]}],
          "flavour": "uniform", "in_domain": True},
+        # the same mixtures inside an Emulsion / a frame of a time course (independent of the seed)
+        {"kind": "emulsion", "members": [p2([.1, .3]), p2([.2])], "flavour": "bcast", "in_domain": True},
+        {"kind": "emulsion", "members": [p2([.2]), p2([.1, .3])], "flavour": "mixed_layout", "in_domain": True},
+        {"kind": "emulsion", "members": [p3, ax], "flavour": "mixed_class_same_layout", "in_domain": True},
+        {"kind": "emulsion", "members": [ax, p3, ax], "flavour": "mixed_class_same_layout", "in_domain": True},
+        {"kind": "etc", "frames": [[sp], [ax, p3]], "times": [{"int": 0}, {"int": 1}], "flavour": "mixed_class_same_layout",
+         "in_domain": True},
+        {"kind": "tracklist", "tracks": [{"members": [sp], "times": [{"int": 0}]},
+                                         {"members": [ax, ax, p3], "times": [{"int": 0}, {"int": 1}, {"int": 2}]}],
+         "flavour": "mixed_class_same_layout", "in_domain": True},
+        # time code 0 after a non-zero one (interior and last), every spelling, through the constructor and append
+        {"kind": "track", "members": [sp, sp, sp, sp], "times": [{"int": 5}, {"int": 0}, {"float": 0}, {"float": 2 ** 63}],
+         "flavour": "uniform", "in_domain": True, "time_style": "zero"},
+        {"kind": "track", "members": [sp, sp, sp], "times": [{"float": f2b(-2.5)}, {"int": 0, "np": True}, {"int": 0}],
+         "flavour": "uniform", "in_domain": True, "time_style": "zero", "build": "append"},
+        {"kind": "etc", "frames": [[sp], [sp, sp], [], [sp]], "times": [{"int": 3}, {"int": 0}, {"float": 2 ** 63}, {"float": 0, "np": True}],
+         "flavour": "uniform", "in_domain": True, "time_style": "zero", "build": "append"},
+        {"kind": "etc", "frames": [[], [sp], []], "times": [{"float": f2b(7.5)}, {"int": 0, "np": True}, {"int": 0}],
+         "flavour": "uniform", "in_domain": True, "time_style": "zero"},
+        # no amplitudes at all: the zero-sized field cannot be stored, to_file must raise
+        {"kind": "emulsion", "members": [dict(p2([]), ampl_none=True)], "flavour": "uniform", "in_domain": True},
+        {"kind": "track", "members": [p2([]), p2([])], "times": [{"int": 0}, {"int": 1}], "flavour": "uniform", "in_domain": True},
     ]
 
 
@@ -819,6 +1340,166 @@ def prove_with_fallback(ctx: vlib.Ctx):
     return True, True, pending
 
 
+def _zero_positions(ts: list) -> str:
+    """where the time code 0 sits in a list of dumped times"""
+    z = [k for k, t in enumerate(ts) if ("int" in t and t["int"] == 0) or ("float" in t and t["float"] & (2 ** 63 - 1) == 0)]
+    if not z:
+        return "none"
+    n = len(ts)
+    if len(z) == n:
+        return "all" if n > 1 else "only entry"
+    tags = sorted({"first" if k == 0 else "last" if k == n - 1 else "interior" for k in z})
+    return "+".join(tags)
+
+
+def _time_value(t: dict):
+    return t["int"] if "int" in t else b2f(t["float"])
+
+
+def _time_order(ts: list) -> str:
+    if len(ts) < 2:
+        return "fewer than 2"
+    v = [_time_value(t) for t in ts]
+    if any(isinstance(x, float) and x != x for x in v):
+        return "with NaN"
+    steps = [b - a for a, b in zip(v, v[1:])]
+    if all(st == 1 for st in steps):
+        return "increasing, unit steps"
+    if all(st > 0 for st in steps):
+        return "increasing, other steps"
+    if all(st < 0 for st in steps):
+        return "decreasing"
+    if all(st == 0 for st in steps):
+        return "constant"
+    return "with duplicates" if any(st == 0 for st in steps) or len(set(v)) < len(v) else "non-monotone"
+
+
+def _member_pattern(sizes: list[int]) -> str:
+    """where the empty members (frames of a time course, tracks of a list) sit"""
+    n = len(sizes)
+    if n == 0:
+        return "no members"
+    e = [k for k, x in enumerate(sizes) if x == 0]
+    if not e:
+        return "none empty"
+    if len(e) == n:
+        return "all empty"
+    return "empty at " + "+".join(sorted({"first" if k == 0 else "last" if k == n - 1 else "interior" for k in e}))
+
+
+def _groups(kind: str, obj) -> list[list[dict]]:
+    """the droplet groups that are stored as one dataset each"""
+    if kind == "emulsion":
+        return [obj]
+    if kind == "track":
+        return [[td[1] for td in obj]]
+    if kind == "etc":
+        return [te[1] for te in obj]
+    return [[td[1] for td in tr] for tr in obj]
+
+
+def flavour_of(kind: str, obj) -> str:
+    """uniform / mixture flavour of the object that actually reaches to_file (a copy may have dropped members)"""
+    found = set()
+    groups = _groups(kind, obj)
+    if not any(groups):
+        return "empty"
+    for g in groups:
+        if len({d["cls"] for d in g}) > 1:
+            lay = {(len(d["pos"]), d["width"] is not None, len(d["ampl"])) for d in g}
+            found.add("mixed_class_same_layout" if len(lay) == 1 else "mixed_class")
+        elif len({len(d["pos"]) for d in g}) > 1:
+            found.add("mixed_dim")
+        elif len({len(d["ampl"]) for d in g}) > 1:
+            found.add("bcast" if len(g[0]["ampl"]) != 1 and any(len(d["ampl"]) == 1 for d in g[1:]) else "mixed_layout")
+    for f in ("mixed_class_same_layout", "mixed_class", "mixed_dim", "bcast", "mixed_layout"):
+        if f in found:
+            return f
+    return "uniform"
+
+
+def count_dimensions(ctx: vlib.Ctx, rec: dict, res: dict) -> None:
+    """input-distribution histogram: one key per dimension of notes/input_dimensions.md that applies to C08"""
+    kind = rec["kind"]
+    ctx.count("kind", kind)
+    flav = flavour_of(kind, res["obj"]) if "obj" in res else rec["flavour"]
+    ctx.count("flavour", flav)
+    if flav not in ("uniform", "empty"):
+        ctx.count("mixture_outcome", f"{kind} {flav}: " + (
+            "constructor raises" if "construct_error" in res else "to_file raises " + str(res.get("write"))
+            if res.get("write") != "ok" else "WRITTEN"))
+    ctx.count("build", f"{kind}: {rec.get('build', 'ctor')}")
+    ctx.count("provenance", rec.get("prov", "fresh") + (" [" + res["prov_note"].split(" ", 1)[1] + "]" if "prov_note" in res else ""))
+    ctx.count("history", rec.get("hist", "once") + (" (" + rec["before"]["kind"] + " file before)" if res.get("before_written") else "")
+              + (f" (first to_file {res['first_write']}" + (", growing refused" if "grow_error" in res else "") + ")"
+                 if "first_write" in res else ""))
+    if kind != "emulsion":
+        ctx.count("option_info", "omitted" if "info" not in rec else "None" if rec["info"] is None
+                  else "{}" if not rec["info"] else f"{len(rec['info'])} entries")
+        ctx.count("time_style", rec.get("time_style", "corpus"))
+    if kind in ("etc", "tracklist"):
+        ctx.count("option_progress", str(rec.get("progress", False)))
+    if kind in ("etc", "track"):
+        ctx.count("times_container", rec.get("times_as", "list"))
+    if "left_behind" in res:
+        ctx.count("after_failed_to_file", res["left_behind"] if "members" not in res["left_behind"] else
+                  "readable file with fewer members" if not res["left_behind"].startswith("readable file with 0 ") else
+                  "readable file with 0 members")
+    obj = res.get("obj")
+    if obj is None:
+        return
+    if kind == "emulsion":
+        groups, tlists = [obj], []
+    elif kind == "track":
+        groups, tlists = [[td[1] for td in obj]], [[td[0] for td in obj]]
+    elif kind == "etc":
+        groups, tlists = [te[1] for te in obj], [[te[0] for te in obj]]
+        ctx.count("n_frames", min(len(obj), 13) if len(obj) < 13 else f">={10 ** (len(str(len(obj) - 1)) - 1)}")
+        ctx.count("empty_frames", _member_pattern([len(g) for g in groups]))
+    else:
+        groups, tlists = [[td[1] for td in tr] for tr in obj], [[td[0] for td in tr] for tr in obj]
+        ctx.count("n_tracks", min(len(obj), 13) if len(obj) < 13 else f">={10 ** (len(str(len(obj) - 1)) - 1)}")
+        ctx.count("empty_tracks", _member_pattern([len(g) for g in groups]))
+    if rec.get("long"):
+        return              # thousands of identical-looking members would drown the value histograms
+    for ts in tlists:
+        if ts:
+            ctx.count("time_zero_position", _zero_positions(ts))
+            ctx.count("time_order", _time_order(ts))
+        for t in ts:
+            ctx.count("time_type", "int" if "int" in t else "float")
+            if "float" in t:
+                ctx.count("bits_time", float_kind(t["float"]))
+            else:
+                z = abs(t["int"])
+                ctx.count("int_time_size", "0" if z == 0 else "<2^31" if z < 2 ** 31 else "<=2^53" if z <= 2 ** 53 else
+                          "<2^63" if z < 2 ** 63 else ">=2^63")
+    for g in groups:
+        for d in g:
+            ctx.count("class", d["cls"])
+            ctx.count("dim", len(d["pos"]))
+            for b in d["pos"]:
+                ctx.count("bits_position", float_kind(b))
+            ctx.count("bits_radius", float_kind(d["radius"]))
+            if d["width"] is not None:
+                ctx.count("bits_width", float_kind(d["width"]))
+            if HAS_AMPL[d["cls"]]:
+                na = len(d["ampl"])
+                ctx.count("n_amplitudes", "0" if na == 0 else "1" if na == 1 else ("odd" if na % 2 else "even") + f" ({'<=5' if na <= 5 else '>5'})")
+                if na:
+                    zero = [b & (2 ** 63 - 1) == 0 for b in d["ampl"]]
+                    ctx.count("amplitude_pattern", "all zero" if all(zero) else "only last non-zero" if all(zero[:-1]) and na > 1
+                              else "only first non-zero" if all(zero[1:]) and na > 1 else "general")
+                for b in d["ampl"]:
+                    ctx.count("bits_amplitude", float_kind(b))
+
+
+def _result_lits(kind: str, fdump, bdump, status: str) -> tuple[str, str]:
+    w = f"(Ok {cq_file(fdump)})"
+    r = f"(Ok {cq_obj(kind, bdump)})" if status == "ok" else f"(@Err obj {cq_err(status)})"
+    return w, r
+
+
 def check(ctx: vlib.Ctx) -> int:
     _quiet()
     rng = random.Random(ctx.seed)
@@ -843,15 +1524,31 @@ def check(ctx: vlib.Ctx) -> int:
         recipes = corpus() + [gen_recipe(rng, i) for i in range(n_cases)]
         for j, r in enumerate(recipes):
             r["cross"] = j < ctx.scale(160, 1200)       # also read these files with the other three readers
+        n_stream = len(recipes)
+        # collections whose keys cross the digit-width boundaries (10^6 + 1 is the known finding F12), and time codes
+        # of numpy types outside the hand model (oracle only)
+        recipes += long_recipes(ctx.scale([11, 101, 1001], [11, 101, 1001, 10001]))
+        if ctx.tier != "quick":
+            recipes += [r for r in long_recipes([100001]) if r["kind"] == "etc"]
+        recipes += exotic_time_recipes(rng)
         results = [run_one(r, workdir) for r in recipes]
 
         # ---- correspondence literals
-        lits, lit_index = [], []
+        lits, lit_index, long_lits, long_index = [], [], [], []
+        suspected_hits = []
         for i, res in enumerate(results):
             rec = res["recipe"]
-            ctx.count("kind", rec["kind"])
-            ctx.count("flavour", rec["flavour"])
+            if "domain_note" in res:
+                rec["in_domain"] = False
+                ctx.count("out_of_domain_reason", res["domain_note"])
+            elif not rec["in_domain"]:
+                ctx.count("out_of_domain_reason", "time outside the stated premise (int beyond 2^53 in a track, NaN)")
+            count_dimensions(ctx, rec, res)
             ctx.count("in_domain", rec["in_domain"])
+            ctx.count("checked_by", "oracle only" if rec.get("oracle_only") else "model and oracle")
+            if rec.get("long"):
+                ctx.count("long_collection", f"{rec['kind']} with {rec['long']} members: to_file {res.get('write')}, "
+                          f"from_file {res.get('read')}, " + ("equal" if not res.get("oracle") else "DIFFERENT"))
             if "construct_error" in res:
                 ctx.count("outcome", "constructor raises " + res["construct_error"].split(":")[0])
                 ctx.case(["construct", rec], nontrivial=False)
@@ -864,9 +1561,17 @@ def check(ctx: vlib.Ctx) -> int:
                 ctx.broken.append(f"case {i}: cannot be expressed in the model ({res['undumpable']})")
                 ctx.count("outcome", "undumpable")
                 continue
+            if rec.get("oracle_only"):
+                ctx.case([rec["kind"], rec.get("time_style"), rec.get("long"), json.dumps(rec.get("times", ""), sort_keys=True)[:200]],
+                         nontrivial=True)
+                ctx.count("outcome", ("to_file raises " + res["write"]) if res.get("write") != "ok" else
+                          "written and read" + ("" if not res.get("oracle") else " (differs)") if res.get("read") == "ok"
+                          else "from_file raises " + str(res.get("read")))
+                continue
             obj = res["obj"]
-            nd = count_drops(rec["kind"], obj)
-            ctx.case([rec["kind"], obj], nontrivial=nd > 0)
+            kind = rec["kind"]
+            nd = count_drops(kind, obj)
+            ctx.case([kind, obj], nontrivial=nd > 0)
             ctx.count("droplets", min(nd, 8))
             if res["write"] != "ok":
                 ctx.count("outcome", "to_file raises " + res["write"].split(":")[0])
@@ -876,29 +1581,25 @@ def check(ctx: vlib.Ctx) -> int:
                 w = f"(Ok {cq_file(res['file'])})"
                 if res["read"] == "ok":
                     ctx.count("outcome", "written and read" + ("" if not res["oracle"] else " (differs)"))
-                    r = f"(Ok {cq_obj(rec['kind'], res['back'])})"
+                    r = f"(Ok {cq_obj(kind, res['back'])})"
                 else:
                     ctx.count("outcome", "from_file raises " + res["read"].split(":")[0])
                     r = f"(@Err obj {cq_err(res['read'])})"
-            lits.append(f"({cq_obj(rec['kind'], obj)}, {w}, {r})")
-            lit_index.append(i)
+            target, index = (long_lits, long_index) if rec.get("long") else (lits, lit_index)
+            target.append(f"({cq_obj(kind, obj)}, {w}, {r})")
+            index.append(i)
+            for o2, f2, b2, status in res.get("extra", []):
+                w2, r2 = _result_lits(kind, f2, b2, status)
+                target.append(f"({cq_obj(kind, o2)}, {w2}, {r2})")
+                index.append(i)
+                ctx.evaluations += 1
             if rec["flavour"] not in ("uniform", "empty") or nd >= 3:
-                ctx.sample({"recipe_kind": rec["kind"], "flavour": rec["flavour"], "to_file": res["write"],
+                ctx.sample({"recipe_kind": kind, "flavour": rec["flavour"], "to_file": res["write"],
                             "from_file": res.get("read"), "object": obj if nd <= 2 else f"{nd} droplets"}, limit=8)
-        bad_cases: list[int] = []
-        if ok and lits:
-            bad = vlib.run_cases(ctx, "codec", HEADER, lits, "agree", shard=250)
-            bad_cases = [lit_index[b] for b in bad]
-            if bad:
-                ex = results[bad_cases[0]]
-                ctx.broken.append(f"correspondence codec: model and implementation differ on {len(bad)} case(s), e.g. "
-                                  f"{ex['recipe']['kind']}/{ex['recipe']['flavour']} to_file={ex.get('write')} "
-                                  f"from_file={ex.get('read')}")
-                ctx.extra["disagreeing_recipes"] = [results[b]["recipe"] for b in bad_cases[:3]]
 
-        # ---- readers applied to files they did not write, and to hand-made files
+        # ---- the three correspondence runs (independent Coq processes) side by side
+        lits2 = []
         if ok:
-            lits2 = []
             for res in results:
                 for k, status, o in res.get("cross", []):
                     r = f"(Ok {cq_obj(k, o)})" if status == "ok" else f"(@Err obj {cq_err(status)})"
@@ -910,7 +1611,25 @@ def check(ctx: vlib.Ctx) -> int:
                 lits2.append(f"({KINDS.index(k)}, {cq_file(f)}, {r})")
                 ctx.count("cross_read", f"{k} reader on crafted file: " + ("ok" if status == "ok" else status.split(":")[0]))
             ctx.evaluations += len(lits2)
-            bad2 = vlib.run_cases(ctx, "readers", HEADER2, lits2, "agree2", shard=250)
+        bad_cases: list[int] = []
+        if ok:
+            from concurrent.futures import ThreadPoolExecutor
+            with ThreadPoolExecutor(max_workers=3) as ex:
+                fut = ex.submit(vlib.run_cases, ctx, "codec", HEADER, lits, "agree", 100) if lits else None
+                fut_long = ex.submit(vlib.run_cases, ctx, "long", HEADER, long_lits, "agree", 1) if long_lits else None
+                fut2 = ex.submit(vlib.run_cases, ctx, "readers", HEADER2, lits2, "agree2", 120) if lits2 else None
+                bad = fut.result() if fut else []
+                bad_long = fut_long.result() if fut_long else []
+                bad2 = fut2.result() if fut2 else []
+            bad_cases = sorted({lit_index[b] for b in bad} | {long_index[b] for b in bad_long})
+            if bad_cases:
+                ex_ = results[bad_cases[0]]
+                ctx.broken.append(f"correspondence codec: model and implementation differ on {len(bad_cases)} case(s), e.g. "
+                                  f"{ex_['recipe']['kind']}/{ex_['recipe']['flavour']}"
+                                  + (f" with {ex_['recipe']['long']} members" if ex_['recipe'].get('long') else "")
+                                  + f" to_file={ex_.get('write')} from_file={ex_.get('read')}")
+                ctx.extra["disagreeing_recipes"] = [results[b]["recipe"] for b in bad_cases[:3]
+                                                    if not results[b]["recipe"].get("long")]
             if bad2:
                 ctx.broken.append(f"correspondence readers: model dec and from_file differ on {len(bad2)} of {len(lits2)} "
                                   f"(reader, file) pairs, first: {lits2[bad2[0]][:300]}")
@@ -920,9 +1639,15 @@ def check(ctx: vlib.Ctx) -> int:
             rec = res["recipe"]
             if not rec["in_domain"] or not res.get("oracle"):
                 continue
-            ctx.violations.append({"what": "; ".join(res["oracle"][:4]), "input": rec, "found": True,
-                                   "to_file": res.get("write"), "from_file": res.get("read"),
-                                   "model_agrees": i not in bad_cases})
+            v = {"what": "; ".join(res["oracle"][:4]), "input": _slim(rec), "found": True,
+                 "to_file": res.get("write"), "from_file": res.get("read"), "model_agrees": i not in bad_cases}
+            if any(sus_match(rec, res) for sus_match in SUSPECTED):
+                suspected_hits.append(v)
+                continue
+            ctx.violations.append(v)
+        if suspected_hits:
+            ctx.notes.append(f"SUSPECTED (reported, not judged): {len(suspected_hits)} input(s), first: "
+                             + json.dumps(suspected_hits[0], default=str)[:600])
         if len(ctx.violations) > 2:      # one replay file per distinct symptom is enough
             seen, keep = set(), []
             for v in ctx.violations:
@@ -949,7 +1674,8 @@ def check(ctx: vlib.Ctx) -> int:
                 extra = [gen_recipe(rng, i) for i in range(ctx.scale(1500, 6000))]
                 for rec in extra:
                     res = run_one(rec, workdir)
-                    if rec["in_domain"] and res.get("oracle"):
+                    if rec["in_domain"] and "domain_note" not in res and res.get("oracle") \
+                            and not any(m(rec, res) for m in SUSPECTED):
                         ctx.violations.append({"what": "; ".join(res["oracle"][:4]), "input": rec, "found": True,
                                                "broken": (pending + ctx.broken)[:3]})
                         break
@@ -962,9 +1688,32 @@ def check(ctx: vlib.Ctx) -> int:
         # ---- known findings (reported only when listed)
         if ok and not fell_back and "F12" in known_ids:
             ctx.known_printed.append(F12_TEXT)     # established for the current key format by C08_pad6_unsorted_refuted
+        ctx.notes.append(
+            "input dimensions (notes/input_dimensions.md): see the histogram keys class, dim, n_amplitudes, "
+            "amplitude_pattern, bits_*, time_style, time_zero_position, time_order, time_type, int_time_size, "
+            "times_container, n_frames / n_tracks, empty_frames / empty_tracks, build, provenance, history, "
+            "option_info, option_progress, long_collection, cross_read, after_failed_to_file (informational: a to_file "
+            "that raises in the middle of a time course / track list leaves a readable, shorter file behind). "
+            "Oracle only (outside the hand model): time codes of numpy types other than int64/float64 and 0-d arrays "
+            "(time_style exotic:*), collections with more than 1001 members; file-level attributes written for "
+            "`info` are outside the model's `file` (readers ignore them) and are only required to carry the keys of "
+            "`info`.  SUSPECTED list: " + (", ".join(m.__doc__ or m.__name__ for m in SUSPECTED) or "empty"))
     finally:
         shutil.rmtree(workdir, ignore_errors=True)
     return vlib.finish(ctx, "", TRUSTED, ASSUME, RULE)
+
+
+# inputs that make the UNCHANGED /repo fail the property and are waiting for a decision: predicates
+# (recipe, result) -> bool; matching failures are reported in the evidence notes but not judged
+SUSPECTED: list = []
+
+
+def _slim(rec: dict) -> dict:
+    """replay input: long collections are regenerated from their size instead of being written out"""
+    if rec.get("long"):
+        return {"kind": rec["kind"], "long": rec["long"], "oracle_only": bool(rec.get("oracle_only")),
+                "regenerate": "long_recipes([n])"}
+    return rec
 
 
 def replay(path: str) -> int:
@@ -972,6 +1721,9 @@ def replay(path: str) -> int:
     blob = json.load(open(path))
     rec = blob.get("input")
     print(json.dumps({k: blob[k] for k in blob if k != "input"}, indent=1)[:1500])
+    if isinstance(rec, dict) and rec.get("regenerate") and isinstance(rec.get("long"), int):
+        cands = [r for r in long_recipes([rec["long"]]) if r["kind"] == rec["kind"]]
+        rec = next((r for r in cands if bool(r.get("oracle_only")) == bool(rec.get("oracle_only"))), cands[0])
     if not isinstance(rec, dict) or rec.get("kind") not in ("emulsion", "track", "etc", "tracklist") \
             or ("members" in rec and isinstance(rec["members"], int)):
         print("replay file carries no object recipe (see 'what')")
@@ -983,13 +1735,14 @@ def replay(path: str) -> int:
     finally:
         shutil.rmtree(workdir, ignore_errors=True)
     print("recipe:", json.dumps(rec)[:1200])
-    for k in ("construct_error", "write", "write_msg", "read", "read_msg", "oracle"):
+    for k in ("construct_error", "prov_note", "domain_note", "write", "write_msg", "left_behind", "read", "oracle"):
         if k in res:
-            print(f"  {k}: {res[k]}")
+            print(f"  {k}: {str(res[k])[:1500]}")
     if "obj" in res:
         print("  model input :", cq_obj(rec["kind"], res["obj"])[:600])
     if "back" in res:
         print("  read back   :", cq_obj(rec["kind"], res["back"])[:600])
-    failing = bool(res.get("oracle")) or ("construct_error" in res)
+    failing = bool(res.get("oracle")) or ("construct_error" in res and not (
+        track_with_mixed_dims(rec) and res["construct_error"].startswith("ValueError")))
     print("property violated on the current tree:", failing)
     return 1 if failing else 0
